@@ -62,7 +62,15 @@ func schedCase(rng *rand.Rand, w *Writer, suite string, kind string, canonical i
 	pop := fmt.Sprintf("%x:%x:%s:%s:%s:%x:%d:%d:%d:%d", uint64(d.eui.ToInt64()), d.addr, hx(d.appkey), hx(d.nwk), hx(d.app),
 		uint64(d.appeui.ToInt64()), d.fup0, d.fdn0, b01(d.relaxed), int(state))
 	// queued downstream data, so that answers carry a payload
-	if canonical == 3 && kind != "join-copies" {
+	if (suite == "schedC07" || suite == "schedC03") && kind != "join-copies" && canonical != 3 && rng.Intn(4) == 0 {
+		// the oldest queued message cannot be marshalled (a port the frame format has no room for; the service refuses such
+		// ports, the table does not): its encoder must not use up - or hand back - a frame counter while another works
+		h.submit(d, uint8([]int{0, 224, 255}[rng.Intn(3)]), rng.Intn(2) == 0, randBytes(rng, 1+rng.Intn(20)))
+		w.Count("sched.unmarshallable-queued")
+		if rng.Intn(2) == 0 {
+			h.submit(d, uint8(1+rng.Intn(200)), rng.Intn(2) == 0, randBytes(rng, 1+rng.Intn(20)))
+		}
+	} else if canonical == 3 && kind != "join-copies" {
 		// exactly one queued message: the first handler's answer carries it, the second handler has nothing to send
 		h.submit(d, uint8(1+rng.Intn(200)), false, randBytes(rng, 1+rng.Intn(20)))
 	} else if kind != "join-copies" && rng.Intn(2) == 0 {
